@@ -48,6 +48,26 @@ type CaseResult struct {
 	Evals    int64 `json:"evals,omitempty"`
 	NonTrivN int64 `json:"nontriv_n,omitempty"`
 	FnShard  bool  `json:"fn_shard,omitempty"`
+	// BlownUp: the run flagged its nitrate transport as numerically unstable and mineral N then grew beyond 1e15 kg N/ha
+	BlownUp bool `json:"blown_up,omitempty"`
+}
+
+// sigBlownUp: root-cause signature of everything that is observed in a run after its (flagged) instability has grown
+// mineral N beyond any physical magnitude (it ends in floating-point overflow: Inf, NaN in state and output)
+const sigBlownUp = "blown_up_after_flagged_instability"
+
+// noteBlowUp is called with every probe event before the monitors see it
+func (rc *RunCtx) noteBlowUp(g *hermes.GlobalVarsMain) {
+	if rc.Res.BlownUp || g == nil || g.C1NotStableErr == "" {
+		return
+	}
+	for z := 0; z < g.N && z < len(g.C1); z++ {
+		if c := g.C1[z]; !finite(c) || c > 1e15 || c < -1e15 {
+			rc.Res.BlownUp = true
+			rc.Cov("runs_blown_up_after_flagged_instability", 1)
+			return
+		}
+	}
 }
 
 // RunCtx is handed to monitors.
@@ -58,6 +78,7 @@ type RunCtx struct {
 	Res       *CaseResult
 	Logs      []string
 	RunErr    error
+	liveG     *hermes.GlobalVarsMain
 	Crashed   bool
 	mu        sync.Mutex
 }
@@ -67,6 +88,10 @@ const maxViolPerSig = 3
 func (rc *RunCtx) Violate(prop, sig, msg string, zeit, layer int, terms map[string]float64) {
 	if rc.Res.NViol == nil {
 		rc.Res.NViol = map[string]int{}
+	}
+	if rc.Res.BlownUp && sig != sigBlownUp {
+		msg = "[" + sig + "] " + msg
+		sig = sigBlownUp
 	}
 	key := prop + "|" + sig
 	rc.Res.NViol[key]++
@@ -156,6 +181,12 @@ func runWithMonitors(rc *RunCtx, root string, args []string, monitors []Monitor)
 	hermes.VerifSetSink(func(ev *hermes.VerifEvent) {
 		if ev.Site == "day_begin" {
 			res.Days++
+		}
+		if ev.Site == "input_done" {
+			rc.liveG = ev.G
+		}
+		if ev.G == rc.liveG { // not the copies of the state that kernel checks work on
+			rc.noteBlowUp(ev.G)
 		}
 		if inj != nil {
 			inj.Event(ev, rc)
@@ -532,7 +563,7 @@ func loadFindings() []Finding {
 
 func matchFinding(fs []Finding, prop, sig string) *Finding {
 	for i := range fs {
-		if fs[i].Status == "open" && fs[i].Property == prop && fs[i].Signature == sig {
+		if fs[i].Status == "open" && (fs[i].Property == prop || fs[i].Property == "*") && fs[i].Signature == sig {
 			return &fs[i]
 		}
 	}
@@ -619,6 +650,9 @@ func finishCheck(spec checkSpec, tier string, seed uint64, results []*CaseResult
 			// (and takes every other run of its batch process with it): reported under the property being checked
 			crashes++
 			sig := "crash:" + crashFunc(r.Err)
+			if r.BlownUp {
+				sig = sigBlownUp
+			}
 			if spec.Prop == "C04" {
 				if sc := GenScenario("C04", seed, r.Index); sc.WeatherFault != "" {
 					sig = faultSig(sc, sig) // consequence of the unreported incomplete weather input
@@ -652,7 +686,7 @@ func finishCheck(spec checkSpec, tier string, seed uint64, results []*CaseResult
 		for _, x := range vs {
 			cases[x.res.Index] = true
 		}
-		fmt.Printf("KNOWN-FINDING: property=%s %s [%s] signature=%s observed in %d case(s), e.g. case %d: %s\n", f.Property, f.ID, f.Description, f.Signature, len(cases), vs[0].res.Index, vs[0].v.Msg)
+		fmt.Printf("KNOWN-FINDING: property=%s %s [%s] signature=%s observed in %d case(s), e.g. case %d: %s\n", vs[0].v.Prop, f.ID, f.Description, f.Signature, len(cases), vs[0].res.Index, vs[0].v.Msg)
 	}
 	exit := 0
 	reported := map[string]bool{}
